@@ -746,12 +746,10 @@ impl<'a, 'b, R: FileManager> TypeModuleWalker<'a, R, AddressedQualifiedType>
                 anchor,
                 DiagnosticInfoMessage::CannotUseInterfaceInQualifiedTypePosition,
             ),
-            SymbolExport::ValueExpr { .. } => {
-                unreachable!("we use get_type which filters these out")
-            }
-            SymbolExport::ExprDecl { .. } => {
-                unreachable!("we use get_type which filters these out")
-            }
+            // a default export reaches here without passing get_type (`export { v as default }`)
+            SymbolExport::ValueExpr { .. } | SymbolExport::ExprDecl { .. } => self
+                .ctx
+                .error(anchor, DiagnosticInfoMessage::CannotUseValueInTypePosition),
         }
     }
 
@@ -1074,10 +1072,13 @@ impl<'a, 'b, R: FileManager> ValueModuleWalker<'a, R, AddressedQualifiedValue>
             SymbolExport::StarOfOtherFile { reference } => {
                 self.get_addressed_item_from_import_reference(reference.as_ref(), anchor)
             }
-            SymbolExport::TsType { .. } => unreachable!("we use get_value wich filters these out"),
-            SymbolExport::TsInterfaceDecl { .. } => {
-                unreachable!("we use get_value wich filters these out")
-            }
+            // a default export reaches here without passing get_value (`export { I as default }`)
+            SymbolExport::TsType { .. } => self
+                .ctx
+                .error(anchor, DiagnosticInfoMessage::CannotUseTypeInValuePosition),
+            SymbolExport::TsInterfaceDecl { .. } => self
+                .ctx
+                .error(anchor, DiagnosticInfoMessage::CannotUseInterfaceInValuePosition),
             SymbolExport::TsEnumDecl {
                 decl,
                 original_file,
